@@ -349,4 +349,6 @@ def inline_helpers(facts_json, anchors=None):
     for f in facts_json["fns"]:
         if f["kind"] == "Closure" and f.get("parent") in absorbed:
             f["absorbed_parent"] = True
+    import thread as _thr
+    _thr.thread_all(facts_json)
     return stats
